@@ -9,7 +9,12 @@ Open Scope Qc_scope.
    The full statement, no guard: for EVERY history function, state layout, parameter values, model (any number of
    equations, terms and delayed factors), solver kind, time and state, the compiled function evaluates every delayed term as
    component pos(x) of hist(t - tau), t in time units (t for adaptive solvers, t*dt for fixed-step ones).
-   True of the code since the repairs D38 (textual replace in _expr_to_str) and D39 (step size written exactly). *)
+   HOW TO READ IT (independent review, DESIGN section 12): in this model "component pos(x)" is `nth (pos x)` on both sides and
+   `t*dt` is definitional (emit_now sets dt_emit := dt since repair D39), so neither the index into hist(...) nor the t*dt
+   conversion is PROVED here - both are tied to the code only by the correspondence run (seeded index / dt-factor bugs are
+   caught there).  What the proof establishes is the allocation round trip: every past(x, d) is replaced by a history variable
+   whose emitted line carries exactly the delay d of that occurrence, for any number of occurrences (C10_alloc_bijective,
+   C10_past_occurrence).  The genuine refinement theorem of this file is C10_run_refines. *)
 Theorem C10_full : forall (hist : Qc -> list Qc) (pos : nat -> nat) (par dpar : nat -> Qc) m md t y,
   impl_eval hist pos par dpar m md t y = spec_eval hist pos par dpar m md t y.
 Proof. exact dde_full. Qed.
@@ -22,7 +27,9 @@ Theorem C10_before_fix_partial : forall (hist : Qc -> list Qc) (pos : nat -> nat
 Proof. exact before_fix_refines. Qed.
 Print Assumptions C10_before_fix_partial.
 
-(* ... D38:  z' = a + k0 - past(z, 1/2)  was not delivered (the real code read a(t-k0)) *)
+(* ... D38:  z' = a + k0 - past(z, 1/2)  was not delivered.  NOTE: impl_eval_before_fix is `if guard then <current impl> else
+   None`; this lemma therefore only shows None <> Some _ on a model outside the guard.  What the old code actually did there
+   (TypeError, or silently reading a(t-k0)) is NOT modelled; it is documented by corpus/C10/F1_neg_past_*.json only. *)
 Theorem C10_before_fix_refuted_printable : exists (hist : Qc -> list Qc) pos par dpar m md t y,
   impl_eval_before_fix hist pos par dpar m md t y <> Some (spec_eval_e hist pos par dpar m md t y).
 Proof.
@@ -68,14 +75,28 @@ Definition C10_vec_full_statement : Prop :=
   forall (hist : Qc -> list Qc) start (par dpar : nat -> nat -> Qc) n m md t y,
     vimpl_eval hist start par dpar n m md t y = vspec_eval hist start par dpar n m md t y.
 
-(* partial: a delay PARAMETER must have the same value on all units (finding C10-F5: the code reads d[0] for every unit) *)
+(* partial: a delay PARAMETER must have the same value on all units (finding C10-F5: the code reads d[0] for every unit).
+   NOTE: vimpl_eval and vspec_eval differ only in `dpar p 0` versus `dpar p u`, and the hypothesis equates exactly these: the
+   statement is definitional up to dde_full; its content is that NOTHING ELSE distinguishes the vectorized code from the
+   specification in this model. *)
 Theorem C10_vec_partial : forall (hist : Qc -> list Qc) start (par dpar : nat -> nat -> Qc) n m md t y,
   (forall p u, (u < n)%nat -> dpar p u = dpar p 0%nat) ->
   vimpl_eval hist start par dpar n m md t y = vspec_eval hist start par dpar n m md t y.
 Proof. exact vec_refines. Qed.
 Print Assumptions C10_vec_partial.
 
-(* with the proposed repair (fixes/proposed_fix_C10_F5.diff: refuse non-uniform delay vectors) no guard is left *)
+(* the same under the decidable BOOLEAN guard delays_uniform that the correspondence run evaluates (delay-parameter tables as
+   lists, rows covering all n units) *)
+Theorem C10_vec_partial_bool : forall (hist : Qc -> list Qc) start (par : nat -> nat -> Qc) dps n m md t y,
+  delays_uniform dps = true -> (forall r, In r dps -> (n <= length r)%nat) ->
+  vimpl_eval hist start par (tab dps) n m md t y = vspec_eval hist start par (tab dps) n m md t y.
+Proof. exact vec_refines_bool. Qed.
+Print Assumptions C10_vec_partial_bool.
+
+(* ---- NOT HEADLINE: the next two statements are about PROPOSED patches that are NOT applied to /repo
+   (fixes/proposed_fix_C10_F5.diff, fixes/proposed_fix_C10_F5_perunit.diff).  They describe code that does not exist and
+   only say what the model would prove if the corresponding one-line model switch (harness/c10.py VEC_DELAY_MODEL) were made.
+   with the proposed repair (refuse non-uniform delay vectors) no guard is left *)
 Theorem C10_vec_after_fix : forall (hist : Qc -> list Qc) start (par dpar : nat -> nat -> Qc) n m md t y (uniform : bool),
   (uniform = true -> forall p u, (u < n)%nat -> dpar p u = dpar p 0%nat) ->
   vimpl_eval_checked uniform hist start par dpar n m md t y =
@@ -83,7 +104,8 @@ Theorem C10_vec_after_fix : forall (hist : Qc -> list Qc) start (par dpar : nat 
 Proof. exact vec_checked_refines. Qed.
 Print Assumptions C10_vec_after_fix.
 
-(* with the per-unit repair (fixes/proposed_fix_C10_F5_perunit.diff) the full vector statement holds *)
+(* NOT HEADLINE, proposed and unapplied patch (fixes/proposed_fix_C10_F5_perunit.diff): with per-unit lookups the full vector
+   statement would hold *)
 Theorem C10_vec_after_perunit_fix : forall (hist : Qc -> list Qc) start (par dpar : nat -> nat -> Qc) n m md t y,
   vimpl_eval_perunit hist start par dpar n m md t y = vspec_eval hist start par dpar n m md t y.
 Proof. exact vec_perunit_full. Qed.
@@ -104,7 +126,8 @@ Print Assumptions C10_vec_refuted_delay_parameter.
 Definition C10_edges_full_statement : Prop :=
   forall step es base, add_edges (edge_factor_impl step es) es base = add_edges edge_factor_spec es base.
 
-(* partial: one guard left (finding C10-F4) *)
+(* partial: one guard left (finding C10-F4).  NOTE: definitional - the guard forces the `if` branch of edge_factor_impl that IS
+   edge_factor_spec; the statement records which edges the code delays, it is not a refinement proof. *)
 Theorem C10_edges_partial : forall step es base, edge_delay_above_step step es = true ->
   add_edges (edge_factor_impl step es) es base = add_edges edge_factor_spec es base.
 Proof. exact edges_refine. Qed.
